@@ -539,6 +539,51 @@ def c07_stress_oracle(line, res):
     return None
 
 
+# ---------------------------------------------------------------- round 2: concurrent churn with self-identifying values
+# size-class boundaries of the byte pool (bytespool: 2^n up to 256, then four sub-classes per octave); every case
+# keeps all its value lengths inside ONE class so that freed entry buffers are what the next Store / copy gets back
+CHURN_CLASSES = [(100, 128), (200, 256), (530, 640), (900, 1020), (3600, 4090), (14500, 16380), (50000, 57340)]
+
+
+def c07_churn_gen(rng, tier):
+    """real parallel stores (overwrite with another length of the same size class, set-if-absent, 1 s lifetime),
+    deletes, lookups on one MemoryCache; ample capacity (entries go away only by being replaced / deleted /
+    expiring) and small capacity (constant size eviction); all cores.  Wall time = sum of ms."""
+    out = []
+    n = budget(tier, 6, 60)
+    ms = budget(tier, 1500, 5000)
+    for i in range(n):
+        lo, hi = CHURN_CLASSES[(i + rng.randrange(len(CHURN_CLASSES))) % len(CHURN_CLASSES)] if i >= 2 else (900, 1020)
+        keys = rng.choice([4, 16, 16, 64, 256])
+        vers = rng.choice([2, 4, 8])
+        while keys * vers * hi > (8 << 20):       # the templates are kept in memory
+            keys //= 2
+        avg = (lo + hi) // 2 + 16
+        # otter admits nothing when an entry costs more than about a tenth of the capacity: keep room for >= 12 entries
+        cap = 0 if i % 2 == 0 else max(12 * avg, rng.choice([keys * avg // 3, keys * avg // 2, 16 * avg]))
+        wr, rd = rng.choice([(0, 0), (0, 0), (8, 8), (4, 28)])
+        procs = rng.choice([0, 0, 0, 64])
+        out.append("ch%d writers=%d readers=%d procs=%d keys=%d cap=%d lo=%d hi=%d vers=%d ms=%d seed=%d" % (
+            i, wr, rd, procs, keys, cap, lo, hi, vers, ms, rng.randrange(1 << 30)))
+    return out
+
+
+def c07_churn_oracle(line, res):
+    r = gens.fields(res)
+    if "wrong" in r and r["wrong"] != "0":
+        return ("under concurrent stores, lookups and evictions %s of %s cache hits returned octets that no Store "
+                "supplied for the looked-up key (%s)" % (r["wrong"], r.get("hits", "?"), r.get("first", "?")))
+    return None
+
+
+def c07_churn_classify(line, res):
+    f = gens.fields(line)
+    r = gens.fields(res)
+    h = int(r.get("hits", "0") or 0)
+    return "%s %s hits=%s" % ("ample" if f["cap"] == "0" else "evicting", "len<=%s" % f["hi"],
+                              "0" if h == 0 else "<1e5" if h < 100000 else "<1e7" if h < 10000000 else ">=1e7")
+
+
 def pressure_ok(ir, mr):
     return True
 
@@ -559,6 +604,8 @@ PROPS["C07"] = dict(
              nontrivial=lambda l, r: "H" in r),
         dict(name="cachestress", gen=c07_stress_gen, oracle=c07_stress_oracle, model=False, timeout=600,
              nontrivial=lambda l, r: True),
+        dict(name="cachechurn", gen=c07_churn_gen, oracle=c07_churn_oracle, classify=c07_churn_classify, model=False,
+             timeout=1800, nontrivial=lambda l, r: r.startswith("hits=") and not r.startswith("hits=0 ")),
     ],
     rule="cachekey: pairs of requests (identical / equal up to ASCII case / differing in exactly one of name, class, "
          "type, group label / class-type swapped / octets moved between type and label / the K2 collision shape), key of "
@@ -569,7 +616,11 @@ PROPS["C07"] = dict(
          "cleared, recycled for another key) on the real MemoryCache vs the model's schedules; pressure histories "
          "(small capacity) are judged by the oracle only; hitmiss: cacheCtl.Store then cacheCtl.Get (real initCache, "
          "marker file, s2) for request pairs differing in exactly one component or in the client address; cachestress: "
-         "8 goroutines on one small MemoryCache, values tagged with their key. distinct = distinct case line",
+         "8 goroutines on one small MemoryCache, values tagged with their key; cachechurn: all cores for 1.5 s per case "
+         "(5 s thorough) on one MemoryCache: writers overwrite / set-if-absent / store with a 1 s lifetime / delete, "
+         "readers verify every octet of every hit against the self-identifying value (key, version, length, PRNG "
+         "octets) its header names; value lengths stay inside one size class of the byte pool; ample and evicting "
+         "capacities. distinct = distinct case line",
     assumptions=["s2.Decode(s2.Encode(x)) = x (section hypothesis of C07_value_unchanged; exercised by kind hitmiss)",
                  "netip.ParseAddr / Addr.As16 are trusted (the model starts from 128-bit numbers; the case generator "
                  "prints them as text for the implementation)",
@@ -577,8 +628,15 @@ PROPS["C07"] = dict(
                  "listener runs at any later time",
                  "Go's sync.RWMutex / sync.Pool semantics (atomic steps of the LTS)"],
     trusted=["C07: the three lost-race states are planted through the hook MemoryCache.VerifPlant (the state a reader "
-             "finds after backend.Get when eviction/recycling won the race); the redis backend is not exercised"],
+             "finds after backend.Get when eviction/recycling won the race); the redis backend is not exercised",
+             "C07: the buffer-level LTS Cache/CacheBuf.v (pooled arrays under the values, one octet per copy step) is tied "
+             "to the code by reading only; its trace property (every hit returns octets some Store supplied for the key) is "
+             "the oracle of kind cachechurn, which samples real schedules - sync.Pool / bytespool are modelled as 'any free "
+             "array'"],
     level_note="proof: key injectivity, range lookup = linear spec, hit => stored under the same key in every "
-               "interleaving, value round trip, repeat => hit; partial: otter/s2/netip are modelled (oracles), redis "
-               "path not exercised, the text parser of the marker file is not modelled below the line level",
+               "interleaving, the copy is made under the entry lock and (buffer-level LTS) returns the stored octets "
+               "unchanged although arrays are recycled, value round trip, repeat => hit; partial: otter/s2/netip and "
+               "the byte pool are modelled (oracles; the buffer-level theorem is tested on the code by the cachechurn "
+               "stress, not tied by differential execution), redis path not exercised, the text parser of the marker "
+               "file is not modelled below the line level",
 )
